@@ -38,3 +38,9 @@ def run(ctx):
     # subscriber that unsubscribes while being notified cannot make the next one miss a STOP / END_REPLICATION (shared rule with C08)
     from . import c08
     c08.r81(ctx)
+    # time-changed notifications are non-decreasing only if the event list hands out the pending minimum, also after a cancellation
+    # (heap discipline and observers: shared rules with C01)
+    from . import c01
+    ctx.uses('eventlist')
+    for cname_ in ctx.prog.subclasses('EventListInterface'):
+        c01.check_eventlist(ctx, cname_)
